@@ -23,7 +23,7 @@ Follow == {"none", "set_other", "compact", "compact2", "plan_after", "set_back"}
 
 \* classes of text; "pad*" have surrounding whitespace
 Classes == {"ascii", "pad_space", "pad_tab_nl", "newlines", "crlf", "quotes", "control",
-            "html", "linesep", "astral", "combining", "nbsp_pad", "long64k", "html200k", "json_like", "over_limit"}
+            "html", "linesep", "astral", "combining", "nbsp_pad", "long64k", "html200k", "json_like", "over_limit", "unicode_blank", "long_multibyte"}
 Padded(c) == c \in {"pad_space", "pad_tab_nl"}
 
 \* the paths that exist: plan is JSON only and carries both fields; --body-stdin
@@ -46,14 +46,17 @@ RealCases == {x \in Cases : PathExists(x.mode, x.cmd, x.field)}
 \* the verdict on one observed round trip r = [case, rel, rel_after]
 C17_roundtrip(r) ==
   LET ok == IF MayTrim(r.case.mode, r.case.cmd, r.case.field) THEN {"equal", "trimmed"} ELSE {"equal"}
-  IN r.rel \in ok \/ (r.case.class = "over_limit" /\ r.rel = "rejected")
+  IN r.rel \in ok \/ (r.case.class \in {"over_limit", "unicode_blank"} /\ r.rel = "rejected")
 C17_stays(r) == (r.rel \in {"equal", "trimmed"} /\ r.case.class # "over_limit") => r.rel_after = r.rel
 \* valid text is not refused (long inputs included): every class here is valid
 \* Unicode and not blank
 \* (the one class beyond what the log format admits - a line over the reader's
 \* limit - may be refused, but then nothing may have changed and the store must
 \* still be readable; if it is accepted it must round-trip like any other text)
-C17_accepted(r) == r.case.class # "over_limit" => r.rel # "rejected"
+C17_accepted(r) == r.case.class \notin {"over_limit", "unicode_blank"} => r.rel # "rejected"
+\* text that is nothing but (Unicode) whitespace may be refused; if it is taken it is
+\* stored like any other text, never replaced by something else
+C17_blank(r) == r.case.class = "unicode_blank" => r.rel \in {"rejected", "equal", "trimmed"}
 C17_overlimit(r) == r.case.class = "over_limit" =>
                       /\ r.store_readable
                       /\ (r.rel = "rejected" => r.store_unchanged)
